@@ -20,7 +20,13 @@ package parser
 //@      && (p.curToken.Type == token.EOF ==> p.peekToken.Type == token.EOF)
 //@      && (p.peekToken.Type == token.EOF ==> p.l.char == 0)
 
-//@ pred ParInv(p *Parser) = LexOK(p) && p.prefixParseFns != nil && p.infixParseFns != nil && p.inserts != nil && p.reserves != nil
+// what the parser has collected so far for the program: component uses are distinct statements
+// that are not resolved yet, reserves are keyed by their own name
+//@ pred ParColl(p *Parser) = forall(i, 0, len(p.components), p.components[i] != nil && allocated(p.components[i]) && p.components[i].Block == nil)
+//@      && forall(i, 0, len(p.components), forall(j, 0, len(p.components), i != j ==> p.components[i] != p.components[j]))
+//@      && forallkey(p.reserves, k, p.reserves[k] != nil && allocated(p.reserves[k]) && p.reserves[k].Name != nil && allocated(p.reserves[k].Name) && p.reserves[k].Name.Value == k)
+
+//@ pred ParInv(p *Parser) = ParColl(p) && LexOK(p) && p.prefixParseFns != nil && p.infixParseFns != nil && p.inserts != nil && p.reserves != nil
 //@      && forall(t, 0, 64, p.prefixParseFns[t].fn == 0 || p.prefixParseFns[t].env == refof(p))
 //@      && forall(t, 0, 64, p.infixParseFns[t].fn == 0 || p.infixParseFns[t].env == refof(p))
 //@      && p.prefixParseFns[token.EOF].fn == 0 && p.infixParseFns[token.EOF].fn == 0
@@ -31,27 +37,37 @@ package parser
 //@ pred ParStep(p *Parser, pd0 int, ct0 token.TokenType, ne0 int) = ParInv(p) && PD(p) <= pd0
 //@      && (PD(p) == pd0 ==> p.curToken.Type == ct0) && len(p.errors) >= ne0
 
-//@ modset PARSER = p.curToken, p.peekToken, p.errors, p.useStmt, p.components, p.l.*, anyslice(*fail.Error), anyslice(*ast.ComponentStmt), anyslice(ast.Statement), anyslice(ast.Expression), anyslice(*ast.SlotStmt), anyslice(*ast.ElseIfStmt), anymap(map[string]*ast.InsertStmt), anymap(map[string]*ast.ReserveStmt), anymap(map[string]ast.Expression)
+// the error and component lists grow by append: their backing array is the old one or a new one
+//@ pred Grown(p *Parser, eb0 int, cb0 int) = (refof(p.errors) == eb0 || fresh(p.errors)) && (refof(p.components) == cb0 || fresh(p.components))
+//@      && forall(i, 0, len(p.components), (i < old(len(p.components)) && p.components[i] == old(p.components[i])) || fresh(p.components[i]))
+//@      && forallkey(p.reserves, k, (old(has(p.reserves, k)) && p.reserves[k] == old(p.reserves[k])) || (fresh(p.reserves[k]) && fresh(p.reserves[k].Name)))
+
+//@ modset PARSER = p.curToken, p.peekToken, p.errors, p.useStmt, p.components, p.l.*, contents(p.errors), contents(p.components), contents(p.inserts), contents(p.reserves)
 
 //@ default (p *Parser)
 //@   requires ParInv(p)
 //@   ensures ParStep(p, old(PD(p)), old(p.curToken.Type), old(len(p.errors)))
+//@   ensures Grown(p, old(refof(p.errors)), old(refof(p.components)))
 //@   modifies @PARSER
 //@   decreases PD(p), 5
 
 // callbacks registered in prefixParseFns / infixParseFns (bound methods of the parser)
 //@ family parser.prefixParseFn.call(fn)
-//@   requires fn.fn != 0 && ParInv(asptr(fn.env, *Parser)) && asptr(fn.env, *Parser).curToken.Type != token.EOF
+//@   ensures len(asptr(fn.env, *Parser).errors) == old(len(asptr(fn.env, *Parser).errors)) ==> WFN(result)
+//@   requires fn.fn != 0 && fn.env != 0 && ParInv(asptr(fn.env, *Parser)) && asptr(fn.env, *Parser).curToken.Type != token.EOF
 //@   ensures ParStep(asptr(fn.env, *Parser), old(PD(asptr(fn.env, *Parser))), old(asptr(fn.env, *Parser).curToken.Type), old(len(asptr(fn.env, *Parser).errors)))
-//@   modifies asptr(fn.env, *Parser).curToken, asptr(fn.env, *Parser).peekToken, asptr(fn.env, *Parser).errors, asptr(fn.env, *Parser).useStmt, asptr(fn.env, *Parser).components, asptr(fn.env, *Parser).l.*, anyslice(*fail.Error), anyslice(*ast.ComponentStmt), anyslice(ast.Statement), anyslice(ast.Expression), anyslice(*ast.SlotStmt), anyslice(*ast.ElseIfStmt), anymap(map[string]*ast.InsertStmt), anymap(map[string]*ast.ReserveStmt), anymap(map[string]ast.Expression)
-//@   decreases PD(asptr(fn.env, *Parser)), 13
+//@   ensures Grown(asptr(fn.env, *Parser), old(refof(asptr(fn.env, *Parser).errors)), old(refof(asptr(fn.env, *Parser).components)))
+//@   modifies asptr(fn.env, *Parser).curToken, asptr(fn.env, *Parser).peekToken, asptr(fn.env, *Parser).errors, asptr(fn.env, *Parser).useStmt, asptr(fn.env, *Parser).components, asptr(fn.env, *Parser).l.*, contents(asptr(fn.env, *Parser).errors), contents(asptr(fn.env, *Parser).components), contents(asptr(fn.env, *Parser).inserts), contents(asptr(fn.env, *Parser).reserves)
+//@   decreases PD(asptr(fn.env, *Parser)), 14
 
 //@ family parser.infixParseFn.call(fn, left)
-//@   requires fn.fn != 0 && ParInv(asptr(fn.env, *Parser)) && asptr(fn.env, *Parser).curToken.Type != token.EOF
+//@   ensures len(asptr(fn.env, *Parser).errors) == old(len(asptr(fn.env, *Parser).errors)) && WFN(left) ==> WFN(result)
+//@   requires fn.fn != 0 && fn.env != 0 && ParInv(asptr(fn.env, *Parser)) && asptr(fn.env, *Parser).curToken.Type != token.EOF
 //@   requires has(precedences, asptr(fn.env, *Parser).curToken.Type)
 //@   ensures ParStep(asptr(fn.env, *Parser), old(PD(asptr(fn.env, *Parser))), old(asptr(fn.env, *Parser).curToken.Type), old(len(asptr(fn.env, *Parser).errors)))
-//@   modifies asptr(fn.env, *Parser).curToken, asptr(fn.env, *Parser).peekToken, asptr(fn.env, *Parser).errors, asptr(fn.env, *Parser).useStmt, asptr(fn.env, *Parser).components, asptr(fn.env, *Parser).l.*, anyslice(*fail.Error), anyslice(*ast.ComponentStmt), anyslice(ast.Statement), anyslice(ast.Expression), anyslice(*ast.SlotStmt), anyslice(*ast.ElseIfStmt), anymap(map[string]*ast.InsertStmt), anymap(map[string]*ast.ReserveStmt), anymap(map[string]ast.Expression)
-//@   decreases PD(asptr(fn.env, *Parser)), 13
+//@   ensures Grown(asptr(fn.env, *Parser), old(refof(asptr(fn.env, *Parser).errors)), old(refof(asptr(fn.env, *Parser).components)))
+//@   modifies asptr(fn.env, *Parser).curToken, asptr(fn.env, *Parser).peekToken, asptr(fn.env, *Parser).errors, asptr(fn.env, *Parser).useStmt, asptr(fn.env, *Parser).components, asptr(fn.env, *Parser).l.*, contents(asptr(fn.env, *Parser).errors), contents(asptr(fn.env, *Parser).components), contents(asptr(fn.env, *Parser).inserts), contents(asptr(fn.env, *Parser).reserves)
+//@   decreases PD(asptr(fn.env, *Parser)), 14
 
 // ---- helpers ----
 
@@ -85,7 +101,8 @@ package parser
 //@   requires true
 //@   call New#0: assert carries-line-and-file: arg0 == line && arg1 == p.filepath
 //@   ensures len(p.errors) == old(len(p.errors)) + 1
-//@   modifies p.errors, anyslice(*fail.Error)
+//@   ensures refof(p.errors) == old(refof(p.errors)) || fresh(p.errors)
+//@   modifies p.errors, contents(p.errors)
 //@   decreases PD(p), 1
 
 //@ func (p *Parser) expectPeek
@@ -93,14 +110,16 @@ package parser
 //@   call newError#0: assert line-of-the-unexpected-token: arg1 == p.peekToken.Pos.EndLine + 1
 //@   requires ParInv(p) && validTok(tok) && tok != token.EOF
 //@   ensures ParStep(p, old(PD(p)), old(p.curToken.Type), old(len(p.errors)))
+//@   ensures Grown(p, old(refof(p.errors)), old(refof(p.components)))
 //@   ensures result ==> old(p.peekToken.Type) == tok && p.curToken == old(p.peekToken) && PD(p) < old(PD(p)) && len(p.errors) == old(len(p.errors))
 //@   ensures !result ==> old(p.peekToken.Type) != tok && p.curToken == old(p.curToken) && p.peekToken == old(p.peekToken) && len(p.errors) == old(len(p.errors)) + 1
-//@   modifies p.curToken, p.peekToken, p.l.*, p.errors, anyslice(*fail.Error)
+//@   modifies p.curToken, p.peekToken, p.l.*, p.errors, contents(p.errors)
 //@   decreases PD(p), 2
 
 //@ func New
 //@   requires lexer != nil && LexInv(lexer)
 //@   ensures fresh(result) && ParInv(result) && result.l == lexer && len(result.errors) == 0 && result.filepath == filepath
+//@   ensures fresh(result.errors) && fresh(result.components) && fresh(result.inserts) && fresh(result.reserves)
 //@   modifies lexer.*
 
 // ---- program / statements ----
@@ -112,78 +131,128 @@ package parser
 //@   ensures ParInv(p)
 //@   ensures program-or-error: result == nil ==> len(p.errors) >= 1
 //@   ensures fresh(result) || result == nil
-//@   trusted-ensures result != nil ==> forall(i, 0, len(result.Components), result.Components[i].Block == nil)
-//@   trusted-ensures result != nil ==> forallkey(result.Reserves, k, result.Reserves[k].Name.Value == k)
-//@   trusted-ensures result != nil ==> forall(i, 0, len(result.Components), forall(j, 0, len(result.Components), i != j ==> result.Components[i] != result.Components[j]))
-//@   trusted-ensures result != nil && len(p.errors) == 0 ==> WFNode(iface(result))
+//@   ensures result != nil ==> forall(i, 0, len(result.Components), result.Components[i].Block == nil)
+//@   ensures result != nil ==> forallkey(result.Reserves, k, result.Reserves[k].Name.Value == k)
+//@   ensures result != nil ==> forall(i, 0, len(result.Components), forall(j, 0, len(result.Components), i != j ==> result.Components[i] != result.Components[j]))
+//@   ensures well-formed-or-error: result != nil && len(p.errors) == 0 ==> WFNode(iface(result))
+//@   use@post wfProgramI(prog)
+//@   loop 0: invariant len(p.errors) == old(len(p.errors)) ==> forall(k, 0, len(prog.Statements), WFN(prog.Statements[k]))
 //@   modifies @PARSER
 //@   loop 0: invariant ParInv(p) && len(p.errors) >= old(len(p.errors)) && prog != nil && fresh(prog)
+//@   loop 0: invariant Grown(p, old(refof(p.errors)), old(refof(p.components)))
+//@   loop 0: invariant fresh(prog.Statements)
 //@   loop 0: decreases PD(p)
 
 //@ func (p *Parser) parseStatement
+//@   ensures well-formed-or-error: len(p.errors) == old(len(p.errors)) ==> result == nil || WFN(result)
+//@   use@post wfBreakStmtI(as(result, *ast.BreakStmt))
+//@   use@post wfContinueStmtI(as(result, *ast.ContinueStmt))
 //@   decreases PD(p), 19
 
 //@ func (p *Parser) parseBlockStmt
+//@   ensures well-formed-or-error: len(p.errors) == old(len(p.errors)) ==> result != nil && WFNode(iface(result))
+//@   use@post wfBlockStmtI(stmt)
+//@   loop 0: invariant len(p.errors) == old(len(p.errors)) ==> forall(k, 0, len(stmt.Statements), WFN(stmt.Statements[k]))
 //@   call newError#*: assert line-of-the-current-token: arg1 == p.curToken.Pos.EndLine + 1
 //@   decreases PD(p), 20
 //@   loop 0: invariant ParInv(p) && PD(p) <= old(PD(p)) && len(p.errors) >= old(len(p.errors)) && stmt != nil
+//@   loop 0: invariant Grown(p, old(refof(p.errors)), old(refof(p.components)))
+//@   loop 0: invariant stmt.Statements == nil || fresh(stmt.Statements)
 //@   loop 0: invariant PD(p) == old(PD(p)) ==> p.curToken.Type == old(p.curToken.Type)
 //@   loop 0: decreases PD(p)
 
 //@ func (p *Parser) parseEmbeddedCode
+//@   ensures well-formed-or-error: len(p.errors) == old(len(p.errors)) ==> WFN(result)
 //@   call newError#*: assert line-of-the-current-token: arg1 == p.curToken.Pos.EndLine + 1
 //@   decreases PD(p), 18
 //@ func (p *Parser) parseIfStmt
+//@   ensures well-formed-or-error: len(p.errors) == old(len(p.errors)) ==> result != nil && WFNode(iface(result))
+//@   use@post wfIfStmtI(stmt)
+//@   loop 0: invariant len(p.errors) == old(len(p.errors)) ==> WFN(stmt.Condition) && stmt.Consequence != nil && WFNode(iface(stmt.Consequence)) && stmt.Alternative == nil
+//@   loop 0: invariant len(p.errors) == old(len(p.errors)) ==> forall(k, 0, len(stmt.Alternatives), stmt.Alternatives[k] != nil && WFN(stmt.Alternatives[k].Condition) && stmt.Alternatives[k].Consequence != nil && WFNode(iface(stmt.Alternatives[k].Consequence)))
 //@   decreases PD(p), 18
 //@   loop 0: invariant ParInv(p) && PD(p) < old(PD(p)) && len(p.errors) >= old(len(p.errors)) && stmt != nil
+//@   loop 0: invariant Grown(p, old(refof(p.errors)), old(refof(p.components)))
+//@   loop 0: invariant stmt.Alternatives == nil || fresh(stmt.Alternatives)
 //@   loop 0: decreases PD(p)
 //@ func (p *Parser) parseForStmt
+//@   ensures well-formed-or-error: len(p.errors) == old(len(p.errors)) ==> result != nil && WFNode(iface(result))
+//@   use@post wfForStmtI(stmt)
 //@   decreases PD(p), 18
 //@ func (p *Parser) parseEachStmt
+//@   ensures well-formed-or-error: len(p.errors) == old(len(p.errors)) ==> result != nil && WFNode(iface(result))
+//@   use@post wfEachStmtI(stmt)
 //@   decreases PD(p), 18
 //@ func (p *Parser) parseUseStmt
+//@   ensures well-formed-or-error: len(p.errors) == old(len(p.errors)) ==> WFN(result)
+//@   use@post wfUseStmtI(stmt)
 //@   decreases PD(p), 18
-// (the trusted postconditions of ParseProgram about reserves and components rest on these
+// (the postconditions of ParseProgram about reserves and components rest on ParColl and these
 // two local facts plus "names and component statements are never written again")
 //@ func (p *Parser) parseReserveStmt
+//@   ensures well-formed-or-error: len(p.errors) == old(len(p.errors)) ==> WFN(result)
+//@   use@post wfReserveStmtI(stmt)
 //@   decreases PD(p), 18
 //@   goal keyed-by-own-name: result != nil ==> istype(result, *ast.ReserveStmt) && has(p.reserves, as(result, *ast.ReserveStmt).Name.Value)
 //@        && p.reserves[as(result, *ast.ReserveStmt).Name.Value] == as(result, *ast.ReserveStmt)
 //@ func (p *Parser) parseInsertStmt
+//@   ensures well-formed-or-error: len(p.errors) == old(len(p.errors)) ==> WFN(result)
+//@   use@post wfInsertStmtI(stmt)
 //@   decreases PD(p), 18
 //@ func (p *Parser) parseBreakIfStmt
+//@   ensures well-formed-or-error: len(p.errors) == old(len(p.errors)) ==> WFN(result)
+//@   use@post wfBreakIfStmtI(stmt)
 //@   decreases PD(p), 18
 //@ func (p *Parser) parseContinueIfStmt
+//@   ensures well-formed-or-error: len(p.errors) == old(len(p.errors)) ==> WFN(result)
+//@   use@post wfContinueIfStmtI(stmt)
 //@   decreases PD(p), 18
 //@ func (p *Parser) parseComponentStmt
+//@   ensures well-formed-or-error: len(p.errors) == old(len(p.errors)) ==> WFN(result)
+//@   use@post wfComponentStmtI(stmt)
+//@   use@post wfStringLiteralI(stmt.Name)
 //@   call newError#*: assert line-of-the-current-token: arg1 == p.curToken.Pos.EndLine + 1
 //@   decreases PD(p), 18
 //@   goal registers-a-fresh-statement: result != nil ==> fresh(result) && len(p.components) >= 1
 //@ func (p *Parser) parseSlotStmt
+//@   ensures well-formed-or-error: len(p.errors) == old(len(p.errors)) ==> result != nil && WFNode(iface(result))
+//@   use@post wfSlotStmtI(result)
 //@   decreases PD(p), 18
 //@ func (p *Parser) parseDumpStmt
+//@   ensures well-formed-or-error: len(p.errors) == old(len(p.errors)) ==> result != nil && WFNode(iface(result))
+//@   use@post wfDumpStmtI(result)
 //@   decreases PD(p), 18
 //@ func (p *Parser) parseHTMLStmt
+//@   ensures well-formed: result != nil && WFNode(iface(result))
+//@   use@post wfHTMLStmtI(result)
 //@   decreases PD(p), 18
 //@ func (p *Parser) parseElseIfStmt
+//@   ensures well-formed-or-error: len(p.errors) == old(len(p.errors)) ==> result != nil && WFN(result.Condition) && result.Consequence != nil && WFNode(iface(result.Consequence))
 //@   ensures result != nil ==> PD(p) < old(PD(p))
 //@   decreases PD(p), 17
 //@ func (p *Parser) parseAlternativeBlock
+//@   ensures well-formed-or-error: len(p.errors) == old(len(p.errors)) ==> result != nil && WFNode(iface(result))
 //@   call newError#*: assert line-of-the-unexpected-token: arg1 == p.peekToken.Pos.EndLine + 1
 //@   requires p.peekToken.Type == token.ELSE
 //@   decreases PD(p), 17
 //@ func (p *Parser) parseSlots
 //@   decreases PD(p), 25
 //@   loop 0: invariant ParInv(p) && PD(p) <= old(PD(p)) && len(p.errors) >= old(len(p.errors))
+//@   loop 0: invariant Grown(p, old(refof(p.errors)), old(refof(p.components)))
 //@   loop 0: invariant PD(p) == old(PD(p)) ==> p.curToken.Type == old(p.curToken.Type)
 //@   loop 0: decreases PD(p)
 //@   loop 1: invariant ParInv(p) && PD(p) < athead(0, PD(p)) && len(p.errors) >= old(len(p.errors))
+//@   loop 1: invariant Grown(p, old(refof(p.errors)), old(refof(p.components)))
 //@   loop 1: decreases PD(p)
 //@ func (p *Parser) parseAssignStmt
+//@   ensures well-formed-or-error: len(p.errors) == old(len(p.errors)) ==> WFN(result)
+//@   use@post wfAssignStmtI(stmt)
 //@   call newError#*: assert line-of-the-current-token: arg1 == p.curToken.Pos.EndLine + 1
 //@   decreases PD(p), 16
 //@   call parseExpression#0: assert rhs-complete: arg1 == LOWEST
 //@ func (p *Parser) parseExpressionStmt
+//@   ensures well-formed-or-error: len(p.errors) == old(len(p.errors)) ==> WFN(result)
+//@   use@post wfExpressionStmtI(as(result, *ast.ExpressionStmt))
 //@   decreases PD(p), 16
 //@   call parseExpression#0: assert complete: arg1 == LOWEST
 
@@ -195,9 +264,11 @@ package parser
 //@ spec terminator(t token.TokenType) bool = t == token.RBRACES || t == token.SEMI || t == token.RPAREN
 
 //@ func (p *Parser) parseExpression
+//@   ensures well-formed-or-error: len(p.errors) == old(len(p.errors)) ==> WFN(result)
+//@   loop 0: invariant len(p.errors) == old(len(p.errors)) ==> WFN(leftExp)
 //@   call newError#*: assert line-of-the-current-token: arg1 == p.curToken.Pos.EndLine + 1
 //@   requires precedence >= LOWEST
-//@   decreases PD(p), 14
+//@   decreases PD(p), 15
 //@   goal table.ternary: LOWEST < prec(token.QUESTION) && prec(token.QUESTION) == TERNARY && prec(token.QUESTION) < prec(token.EQ)
 //@   goal table.equality: prec(token.EQ) == prec(token.NOT_EQ) && prec(token.EQ) < prec(token.LTHAN)
 //@   goal table.comparison: prec(token.LTHAN) == prec(token.GTHAN) && prec(token.LTHAN) == prec(token.LTHAN_EQ) && prec(token.LTHAN) == prec(token.GTHAN_EQ) && prec(token.LTHAN) < prec(token.ADD)
@@ -208,28 +279,40 @@ package parser
 //@   goal munch: result == nil || terminator(p.peekToken.Type) || prec(p.peekToken.Type) <= precedence || p.infixParseFns[p.peekToken.Type].fn == 0
 //@   call nextToken#0: assert binds-tighter: !terminator(p.peekToken.Type) && precedence < prec(p.peekToken.Type)
 //@   loop 0: invariant ParInv(p) && PD(p) <= old(PD(p)) && len(p.errors) >= old(len(p.errors))
+//@   loop 0: invariant Grown(p, old(refof(p.errors)), old(refof(p.components)))
 //@   loop 0: invariant PD(p) == old(PD(p)) ==> p.curToken.Type == old(p.curToken.Type)
 //@   loop 0: decreases PD(p)
 
 //@ func (p *Parser) parsePrefixExp
+//@   ensures well-formed-or-error: len(p.errors) == old(len(p.errors)) ==> WFN(result)
+//@   use@post wfPrefixExpI(exp)
 //@   requires p.curToken.Type != token.EOF
 //@   call parseExpression#0: assert operand-level: arg1 == PREFIX
 //@   decreases PD(p), 13
 //@ func (p *Parser) parseGroupedExpression
+//@   ensures well-formed-or-error: len(p.errors) == old(len(p.errors)) ==> WFN(result)
 //@   requires p.curToken.Type != token.EOF
 //@   call parseExpression#0: assert inner-level: arg1 == LOWEST
 //@   call parseExpression#0: bind inner
 //@   goal parens-leave-no-node: result != nil ==> result == inner
 //@   decreases PD(p), 13
 //@ func (p *Parser) parseArrayLiteral
+//@   ensures well-formed-or-error: len(p.errors) == old(len(p.errors)) ==> WFN(result)
+//@   use@post wfArrayLiteralI(arr)
 //@   requires p.curToken.Type != token.EOF
 //@   decreases PD(p), 13
 //@ func (p *Parser) parseObjectLiteral
+//@   ensures well-formed-or-error: len(p.errors) == old(len(p.errors)) ==> WFN(result)
+//@   use@post wfObjectLiteralI(obj)
+//@   loop 0: invariant len(p.errors) == old(len(p.errors)) ==> forallkey(obj.Pairs, k, WFN(obj.Pairs[k]))
 //@   requires p.curToken.Type != token.EOF
 //@   decreases PD(p), 13
 //@   loop 0: invariant ParInv(p) && PD(p) < old(PD(p)) && len(p.errors) >= old(len(p.errors)) && obj != nil && obj.Pairs != nil
+//@   loop 0: invariant Grown(p, old(refof(p.errors)), old(refof(p.components)))
 //@   loop 0: decreases PD(p)
 //@ func (p *Parser) parseInfixExp
+//@   ensures well-formed-or-error: len(p.errors) == old(len(p.errors)) && WFN(left) ==> WFN(result)
+//@   use@post wfInfixExpI(exp)
 //@   call newError#*: assert line-of-the-current-token: arg1 == p.curToken.Pos.EndLine + 1
 //@   requires p.curToken.Type != token.EOF && has(precedences, p.curToken.Type)
 //@   call parseExpression#0: assert rhs-level: arg1 == prec(old(p.curToken.Type))
@@ -238,6 +321,8 @@ package parser
 //@        && as(result, *ast.InfixExp).Operator == old(p.curToken.Literal) && as(result, *ast.InfixExp).Right == rhs
 //@   decreases PD(p), 13
 //@ func (p *Parser) parseTernaryExp
+//@   ensures well-formed-or-error: len(p.errors) == old(len(p.errors)) && WFN(left) ==> WFN(result)
+//@   use@post wfTernaryExpI(exp)
 //@   requires p.curToken.Type != token.EOF
 //@   call parseExpression#0: assert then-level: arg1 == TERNARY
 //@   call parseExpression#1: assert else-level: arg1 == LOWEST
@@ -247,41 +332,65 @@ package parser
 //@        && as(result, *ast.TernaryExp).Consequence == thenExp && as(result, *ast.TernaryExp).Alternative == elseExp
 //@   decreases PD(p), 13
 //@ func (p *Parser) parseIndexExp
+//@   ensures well-formed-or-error: len(p.errors) == old(len(p.errors)) && WFN(left) ==> WFN(result)
+//@   use@post wfIndexExpI(exp)
 //@   requires p.curToken.Type != token.EOF
 //@   call parseExpression#0: assert index-level: arg1 == LOWEST
 //@   decreases PD(p), 13
 //@ func (p *Parser) parsePostfixExp
+//@   ensures well-formed-or-error: len(p.errors) == old(len(p.errors)) && WFN(left) ==> WFN(result)
+//@   use@post wfPostfixExpI(as(result, *ast.PostfixExp))
 //@   decreases PD(p), 13
 //@ func (p *Parser) parseDotExp
+//@   ensures well-formed-or-error: len(p.errors) == old(len(p.errors)) && WFN(left) ==> WFN(result)
+//@   use@post wfDotExpI(exp)
 //@   requires p.curToken.Type != token.EOF
 //@   decreases PD(p), 13
 //@ func (p *Parser) parseCallExp
+//@   ensures well-formed-or-error: len(p.errors) == old(len(p.errors)) && WFN(receiver) ==> WFN(result)
+//@   use@post wfCallExpI(exp)
 //@   call newError#*: assert line-of-the-current-token: arg1 == p.curToken.Pos.EndLine + 1
 //@   decreases PD(p), 12
 //@ func (p *Parser) parseExpressionList
+//@   ensures well-formed-or-error: len(p.errors) == old(len(p.errors)) ==> forall(k, 0, len(result), WFN(result[k]))
+//@   loop 0: invariant len(p.errors) == old(len(p.errors)) ==> forall(k, 0, len(result), WFN(result[k]))
 //@   requires p.curToken.Type != token.EOF && validTok(endTok) && endTok != token.EOF
 //@   call parseExpression#0: assert element-level: arg1 == LOWEST
 //@   call parseExpression#1: assert element-level: arg1 == LOWEST
 //@   decreases PD(p), 11
 //@   loop 0: invariant ParInv(p) && PD(p) < old(PD(p)) && len(p.errors) >= old(len(p.errors))
+//@   loop 0: invariant Grown(p, old(refof(p.errors)), old(refof(p.components)))
 //@   loop 0: decreases PD(p)
 
 //@ func (p *Parser) parseIdentifier
+//@   ensures is-an-identifier: istype(result, *ast.Identifier)
+//@   ensures well-formed: WFN(result)
+//@   use@post wfIdentifierI(as(result, *ast.Identifier))
 //@   decreases PD(p), 2
 //@ func (p *Parser) parseIntegerLiteral
+//@   ensures well-formed-or-error: len(p.errors) == old(len(p.errors)) ==> WFN(result)
+//@   use@post wfIntegerLiteralI(as(result, *ast.IntegerLiteral))
 //@   call newError#*: assert line-of-the-current-token: arg1 == p.curToken.Pos.EndLine + 1
 //@   decreases PD(p), 2
 //@   goal out-of-range-is-error: result == nil ==> len(p.errors) == old(len(p.errors)) + 1
 //@   goal value: result != nil ==> istype(result, *ast.IntegerLiteral) && as(result, *ast.IntegerLiteral).Token == p.curToken
 //@ func (p *Parser) parseFloatLiteral
+//@   ensures well-formed-or-error: len(p.errors) == old(len(p.errors)) ==> WFN(result)
+//@   use@post wfFloatLiteralI(as(result, *ast.FloatLiteral))
 //@   call newError#*: assert line-of-the-current-token: arg1 == p.curToken.Pos.EndLine + 1
 //@   decreases PD(p), 2
 //@ func (p *Parser) parseStringLiteral
+//@   ensures well-formed: WFN(result)
+//@   use@post wfStringLiteralI(as(result, *ast.StringLiteral))
 //@   decreases PD(p), 2
 //@   goal value-is-the-token-text: istype(result, *ast.StringLiteral) && as(result, *ast.StringLiteral).Value == old(p.curToken.Literal)
 //@ func (p *Parser) parseNilLiteral
+//@   ensures well-formed: WFN(result)
+//@   use@post wfNilLiteralI(as(result, *ast.NilLiteral))
 //@   decreases PD(p), 2
 //@ func (p *Parser) parseBooleanLiteral
+//@   ensures well-formed: WFN(result)
+//@   use@post wfBooleanLiteralI(as(result, *ast.BooleanLiteral))
 //@   decreases PD(p), 2
 //@ func (p *Parser) parseAliasPathShortcut
 //@   call newError#*: assert line-of-the-current-token: arg1 == p.curToken.Pos.EndLine + 1
@@ -289,6 +398,7 @@ package parser
 //@ func (p *Parser) checkDuplicateInserts
 //@   call newError#*: assert line-of-the-insert: arg1 == stmt.Token.Pos.EndLine + 1
 //@   requires ParInv(p) && stmt != nil && stmt.Name != nil
+//@   ensures duplicate-is-an-error: result ==> len(p.errors) == old(len(p.errors)) + 1
 //@   decreases PD(p), 2
 
 //@ func isWhitespace
